@@ -198,7 +198,10 @@ class World(WsWorld):
     def do_cut(self):
         """Connection cut at the current offsets: RST seen by both ends, or FIN from one end."""
         self.cut_done = True
-        which = self.run.ch.choose(3, "cutkind")
+        which = self.run.ch.choose(4, "cutkind")
+        if which == 3:
+            self.inject_close_and_stray()
+            return
         self.run.fault(("cut-rst-both", "cut-fin-from-client-side", "cut-fin-from-server-side")[which])
         if which == 0:
             self.c2s.reset()
@@ -207,6 +210,27 @@ class World(WsWorld):
             self.c2s.close_write()
         else:
             self.s2c.close_write()
+
+    def inject_close_and_stray(self):
+        """The conversation of one direction is ended from the outside: at a frame boundary of the sender's stream a close
+        frame appears, followed by data frames - octets the peer application never sent (a middlebox ending the
+        connection, a desynchronised proxy).  What follows a close frame is not part of the conversation: the receiver
+        may close, but delivers none of it."""
+        from sim.ref_ws import encode_frame
+        ch = self.run.ch
+        to_server = ch.flag("towards-server")
+        snd, rcv, pipe = (self.client, self.server, self.c2s) if to_server else (self.server, self.client, self.s2c)
+        if not (snd.http_done and rcv.p._st == 3 and not snd.monitor.incomplete() and not getattr(snd.t, "outbuf", b"")
+                and not pipe.fin and not pipe.rst and not pipe.gone):
+            self.cut_done = False  # (not at a frame boundary right now: try again later)
+            return
+        self.run.fault("stray-close-frame-then-data-injected")
+        mask = b"\x11\x22\x33\x44" if to_server else None
+        octets = encode_frame(8, b"\x03\xe8", mask=mask)
+        for i in range(1 + ch.choose(2, "n-stray")):
+            octets += encode_frame(2, b"stray-%d-after-close" % i, mask=mask)
+        self.run.log("inject", pipe.name, len(octets))
+        pipe.buf += octets
 
     def exec_op(self, ep):
         op = ep.plan[ep.plan_pos]
